@@ -161,6 +161,13 @@ def check_qmut(ctx, relpath, classes=(), functions=None, receiver='self', file_p
                                   'stored value has UNKNOWN provenance (e.g. eval/exec text, reshape)')
                     else:
                         ctx.ok('R-ALIAS', '%s:%s' % (q, norm(ev.stmt)[:70]), where, 'stored value is %s' % val[0])
+            if ev.kind == 'store-sub' and ev.base[0] == 'DIMS' and ev.value is not None and ev.value[0] == 'SAME' and is_input(ev.value[1]) \
+                    and ev.base[1] != ev.value[1]:
+                ctx.violation(Finding(
+                    'R-ALIAS', relpath, q, ev.stmt,
+                    'a dimension object of %s is stored in the dimension table of %s: on the path where that is a new file the two files share the '
+                    'object, and setunlimited on the result changes the input' % (ev.value[1], ev.base[1] or 'the result')),
+                    oid='%s:%s' % (q, norm(ev.stmt)[:70]))
             if ev.kind == 'result-dims' and ev.value is not None:
                 if ev.base[1] == 'new' and ev.value[0] in ('DIMSCOPY', 'DIMS') and is_input(ev.value[1]):
                     ctx.violation(Finding(
